@@ -197,6 +197,107 @@ pub fn mutate_batch<S: Sch + ProofMut>(rec: &mut Rec, max_size: usize) {
     });
 }
 
+/// Catalogue item "IPA rounds log_d + k with padded identity generators": a cheating prover runs the
+/// folding argument over vectors of length 2^k (d+1) whose upper part sits on identity generators;
+/// coefficients placed there leave the commitment unchanged but move the evaluation to any value.
+/// A verifier that does not insist on exactly log2(d+1) rounds accepts it.
+pub fn ipa_padded_forgery(rec: &mut Rec) {
+    use crate::refm::{challenge, inner, naive_msm, naive_mul, ro_challenge, ser_unc};
+    use crate::schemes::{sponge_pre, FrJ, GJ, UP};
+    use ark_ec::{AffineRepr, CurveGroup};
+    use ark_ff::{Field, Zero};
+    use ark_poly::DenseUVPolynomial;
+    use ark_poly_commit::ipa_pc::Proof;
+    type G = <GJ as AffineRepr>::Group;
+    for s_deg in [1usize, 3, 7] {
+        for extra in [1usize, 2] {
+            for zname in ["r1", "r2"] {
+                let id = format!("IPA/forge/padded-generators/s={}/extra-rounds={}/z={}", s_deg, extra, zname);
+                if !rec.take(&id) {
+                    continue;
+                }
+                rec.dim("scheme", "IPA");
+                let cfg = KeyCfg::uni(s_deg, s_deg, 1, None);
+                let keys = match build_keys::<SIpa>(&cfg, rec.seed) {
+                    Ok(k) => k,
+                    Err(_) => continue,
+                };
+                let n = s_deg + 1;
+                let r = crate::alpha::rho_stream::<FrJ>(rec.seed, 1, n + 1);
+                let p = UP::<FrJ>::from_coefficients_slice(&r[..n]);
+                let c = match commit_set::<SIpa>(&keys, vec![lp::<SIpa>("p", p.clone(), None, None)], rec.seed, 0) {
+                    Ok(c) => c,
+                    Err(_) => continue,
+                };
+                let z = crate::alpha::rho::<FrJ>(rec.seed, if zname == "r1" { 1 } else { 2 });
+                let truth = p.evaluate(&z);
+                let false_value = truth + FrJ::one();
+                let mut sp = sponge_pre::<FrJ>(0);
+                let chi: FrJ = challenge(&mut sp);
+                let comm = c.comms[0].commitment().comm;
+                let combined = naive_mul(&comm, &chi).into_affine();
+                let combined_v = chi * false_value;
+                let big = n << extra;
+                let mut a = vec![FrJ::zero(); big];
+                for (i, ci) in p.coeffs.iter().enumerate() {
+                    a[i] = chi * ci;
+                }
+                a[n] = chi * (false_value - truth) * z.pow([n as u64]).inverse().unwrap();
+                let mut zs = Vec::with_capacity(big);
+                let mut cur = FrJ::one();
+                for _ in 0..big {
+                    zs.push(cur);
+                    cur *= z;
+                }
+                let mut key: Vec<G> = keys.vk.comm_key.iter().map(|g| g.into_group()).collect();
+                key.resize(big, G::zero());
+                let mut bytes = Vec::new();
+                ser_unc(&combined, &mut bytes);
+                ser_unc(&z, &mut bytes);
+                ser_unc(&combined_v, &mut bytes);
+                let mut rc: FrJ = ro_challenge(&bytes);
+                let h_prime = naive_mul(&keys.vk.h, &rc).into_affine();
+                let (mut l_vec, mut r_vec) = (Vec::new(), Vec::new());
+                let mut m = big;
+                while m > 1 {
+                    let half = m / 2;
+                    let ka: Vec<GJ> = G::normalize_batch(&key);
+                    let l = (naive_msm(&ka[..half], &a[half..m]) + naive_mul(&h_prime, &inner(&a[half..m], &zs[..half]))).into_affine();
+                    let rr = (naive_msm(&ka[half..m], &a[..half]) + naive_mul(&h_prime, &inner(&a[..half], &zs[half..m]))).into_affine();
+                    l_vec.push(l);
+                    r_vec.push(rr);
+                    let mut bytes = Vec::new();
+                    ser_unc(&rc, &mut bytes);
+                    ser_unc(&l, &mut bytes);
+                    ser_unc(&rr, &mut bytes);
+                    rc = ro_challenge(&bytes);
+                    let inv = rc.inverse().unwrap();
+                    let na: Vec<FrJ> = (0..half).map(|i| a[i] + inv * a[half + i]).collect();
+                    let nz: Vec<FrJ> = (0..half).map(|i| zs[i] + rc * zs[half + i]).collect();
+                    let nk: Vec<G> = (0..half).map(|i| key[i] + naive_mul(&ka[half + i], &rc)).collect();
+                    a = na;
+                    zs = nz;
+                    key = nk;
+                    m = half;
+                }
+                let forged = Proof::<GJ> { l_vec, r_vec, final_comm_key: key[0].into_affine(), c: a[0], hiding_comm: None, rand: None };
+                let comms: Vec<&LCm<SIpa>> = c.comms.iter().collect();
+                let d = check_single::<SIpa>(&keys, &comms, &z, &[false_value], &forged, 0, rec.seed, 0);
+                expect_reject(rec, &d, "IPA", "check", "forged:extra-rounds-on-identity-generators", &id, format!("{} rounds under a {}-generator key, claim value+1: {}", forged.l_vec.len(), n, d.short()));
+                // the same forgery inside a one-point batch
+                let mut qs = ark_poly_commit::QuerySet::<FrJ>::new();
+                qs.insert(("p".into(), ("a".into(), z)));
+                let mut ev = ark_poly_commit::Evaluations::<FrJ, FrJ>::new();
+                ev.insert(("p".to_string(), z), false_value);
+                let bp: BPf<SIpa> = vec![forged];
+                let d = check_batch::<SIpa>(&keys, &comms, &qs, &ev, &bp, 0, rec.seed, 0);
+                expect_reject(rec, &d, "IPA", "batch_check", "forged:extra-rounds-on-identity-generators", &id, format!("claim value+1: {}", d.short()));
+                rec.sample("IPA-forge", id.clone());
+            }
+        }
+    }
+}
+
 pub fn run(rec: &mut Rec) {
     let (w, ms) = if rec.thorough() { (Width::Wide, 3) } else { (Width::Medium, 2) };
     crate::for_each_scheme!(S, {
@@ -204,5 +305,6 @@ pub fn run(rec: &mut Rec) {
         mutate_single::<S>(rec, w);
         mutate_batch::<S>(rec, ms);
     });
+    ipa_padded_forgery(rec);
     crate::special::c03_special(rec);
 }
